@@ -29,7 +29,7 @@ def s_pair(draw):
     return {
         "lat1": lat1, "lon1": lon1, "lat2": lat2, "lon2": lon2,
         "par1": draw(st.integers(0, 1)), "same_parity": draw(gen.uint(0, 19)) == 0,
-        "tc1": draw(tcs), "tc2": draw(tcs), "t1": t1, "t2": t2, "as_datetime": draw(st.sampled_from([0, 0, 0, 1, 2])), "hc": draw(gen.hexcase),
+        "tc1": draw(tcs), "tc2": draw(tcs), "t1": t1, "t2": t2, "as_datetime": draw(st.sampled_from([0, 0, 0, 1, 2, 3])), "hc": draw(gen.hexcase),
         "ctx_alt1": draw(gen.ubits(12)), "ctx_alt2": draw(gen.ubits(12)),
         "ctx_misc": draw(gen.ubits(8)), "ctx_icao": draw(gen.addresses), "df": draw(st.sampled_from([17, 17, 18])),
     }
